@@ -44,7 +44,7 @@ pub struct Req {
     pub tamper: bool,
     pub tcp: bool,
     pub edns: bool,
-    /// 0 A www | 1 NXDOMAIN | 2 REFUSED | 3 MX | 4 big TXT (truncated over UDP: the TSIG RR must survive)
+    /// 0 A www | 1 NXDOMAIN | 2 REFUSED | 3 MX | 4 big TXT (truncated over UDP: the TSIG RR must survive) | 5 ANY at the apex (truncated over UDP after name-bearing RRsets were written)
     pub question: u8,
     pub upper_key_name: bool,
     /// the request was relayed by a forwarder: its header ID differs from the TSIG original ID
@@ -87,7 +87,7 @@ impl Prop for C10 {
         let nk = range(r, 1, 4) as usize;
         let keys = (0..nk)
             .map(|i| Key {
-                name: format!("{}{}.{}", pick(r, &["key", "k", "transfer", "Host"]), i, pick(r, &["example.", "keys.test.", ""])).replace("..", "."),
+                name: format!("{}{}.{}", pick(r, &["key", "k", "transfer", "Host"]), i, pick(r, &["example.", "keys.test.", "", "elsewhere.", "sub.example.", "mail.example."])).replace("..", "."),
                 sha256: chance(r, 50),
                 secret_hex: crate::util::hex(&(0..*pick(r, &[1usize, 16, 20, 32, 64, 100])).map(|_| r.next() as u8).collect::<Vec<u8>>()),
             })
@@ -121,7 +121,7 @@ impl Prop for C10 {
                     tamper: chance(r, 10),
                     tcp: chance(r, 30),
                     edns: chance(r, 30),
-                    question: r.below(5) as u8,
+                    question: r.below(6) as u8,
                     upper_key_name: chance(r, 20),
                     forwarded: chance(r, 15),
                 }
@@ -184,7 +184,7 @@ impl Prop for C10 {
         h
     }
     fn rule() -> String {
-        "one execution = a server with 1-4 TSIG keys (HMAC-SHA1/SHA256, random names and secrets of 1-100 octets) receiving 1-6 requests signed by an independent RFC 8945 implementation: client clock skew (0, +-fudge, +-(fudge+1), up to +-70000 s), server wall-clock steps forwards/backwards between requests (incl. close to 2^39 s), fudge {0,1,300,65535}, MAC truncation {full, half, 10, 9, half-1, full+1}, tampered octet, wrong secret, unknown key, key with the other algorithm, unknown algorithm name, UDP/TCP, with/without EDNS, key names differing in case, requests relayed by a forwarder (header ID differs from the TSIG original ID). Non-trivial = at least one request is not a plain valid one; distinct = distinct scenario".into()
+        "one execution = a server with 1-4 TSIG keys (HMAC-SHA1/SHA256, random names and secrets of 1-100 octets) receiving 1-6 requests signed by an independent RFC 8945 implementation: client clock skew (0, +-fudge, +-(fudge+1), up to +-70000 s), server wall-clock steps forwards/backwards between requests (incl. close to 2^39 s), fudge {0,1,300,65535}, MAC truncation {full, half, 10, 9, half-1, full+1}, tampered octet, wrong secret, unknown key, key with the other algorithm, unknown algorithm name, UDP/TCP, with/without EDNS, key names differing in case or sharing a suffix with names in the zone's RDATA (compression of the TSIG owner), answers truncated over UDP before and after name-bearing RRsets were written, requests relayed by a forwarder (header ID differs from the TSIG original ID). Non-trivial = at least one request is not a plain valid one; distinct = distinct scenario".into()
     }
     fn assumptions() -> Vec<String> {
         vec![
@@ -210,7 +210,7 @@ impl Prop for C10 {
 
 fn run(scn: &Scn) {
     simrt::start(world_cfg(11, FaultCfg::none()));
-    let catalog = qz::catalog_of(vec![qz::example_zone(1)]);
+    let catalog = qz::catalog_of(vec![qz::example_zone_with(1, true)]);
     let server = Server::new(catalog.clone());
     let reference = Server::new(catalog);
     let mut map = TsigKeyMap::new();
@@ -268,7 +268,10 @@ fn run(scn: &Scn) {
             1 => ("nosuch.example.", wire::T_A),
             2 => ("www.elsewhere.", wire::T_A),
             3 => ("example.", wire::T_MX),
-            _ => ("big.example.", wire::T_TXT),
+            4 => ("big.example.", wire::T_TXT),
+            // ANY at the apex: SOA, NS and MX (names in RDATA) are written before the large TXT
+            // RRset overflows a UDP response and the sections are emptied again
+            _ => ("example.", wire::T_ANY),
         };
         let unsigned = wire::query_full(0x1000 + i as u16, &wire::name(qn), qt, wire::C_IN, 0, if q.edns { Some(1232) } else { None });
         let spec = SignSpec { key_name: wire::name(&key_name), alg: sign_alg, alg_name, secret: secret.clone(), time: t_signed, fudge: q.fudge, mac_len };
